@@ -859,9 +859,6 @@ func ruleNarrowing(c *Ctx) {
 				return
 			}
 			tw, _ := typeWidth(tv.Type)
-			if tw >= 64 {
-				return
-			}
 			arg := call.Args[0]
 			if p.constOf(arg) != nil {
 				return
@@ -908,6 +905,7 @@ func ruleNarrowing(c *Ctx) {
 // narrowReviewed: conversions whose bound needs an argument the interval analysis does not make
 // (one construct, one reason; keyed by function and expression, not by line).
 var narrowReviewed = map[string]string{
+	"Decimal.Int64|int64(sig[0])": "the interval is [0, 2^63]: 2^63 is admitted for negative values only (guard `sig[0] > -MinInt64`), wraps to MinInt64, and the following negation leaves MinInt64 unchanged - the intended result",
 	"Decimal.Int32|int32(sig[0])": "the interval is [0, 2^31]: 2^31 is admitted for negative values only (guard `sig[0] > -MinInt32`), wraps to MinInt32, and the following negation leaves MinInt32 unchanged - the intended result",
 }
 
@@ -1009,5 +1007,59 @@ func ruleBigExact(c *Ctx) {
 	})
 	if n < 2 {
 		c.undecided("bigexact.count", fd, fmt.Sprintf("%d scaling operations found in Decimal.Float, want 2", n), "C09")
+	}
+}
+
+// Integer conversions of a zero: whatever exponent a zero carries (0E+25 is a legal encoding), the
+// saturating exits `return <non-zero limit>, false` must be unreachable. Decided by the interval
+// analysis run under the assumption that decompose returned a zero coefficient (scaling and dividing
+// zero by constants keeps it zero): the environment at each such return must be infeasible.
+func ruleZeroConversions(c *Ctx) {
+	p := c.P
+	n := 0
+	for _, name := range []string{"Decimal.Int32", "Decimal.Int64", "Decimal.Uint32", "Decimal.Uint64"} {
+		fd := c.fn(name)
+		if fd == nil {
+			continue
+		}
+		k := 0
+		p.ivZeroCoef = true
+		walkStack(fd.Body, func(nd ast.Node, stack []ast.Node) {
+			r, ok := nd.(*ast.ReturnStmt)
+			if !ok || len(r.Results) != 2 {
+				return
+			}
+			okFlag, isConst := p.constBool(r.Results[1])
+			lim, isInt := constBig(p.constOf(r.Results[0]))
+			if !isConst || okFlag || !isInt || lim.Sign() == 0 {
+				return
+			}
+			full := append(append([]ast.Node{}, stack...), nd)
+			// exits for NaN/Inf operands are another matter (E9.dispatch)
+			for _, f := range p.factsAt(full, nil) {
+				special := false
+				ast.Inspect(f.cond, func(m ast.Node) bool {
+					if call, ok := m.(*ast.CallExpr); ok {
+						switch p.calleeName(call) {
+						case "Decimal.isSpecial", "Decimal.isInf", "Decimal.IsNaN", "Decimal.IsInf":
+							special = true
+						}
+					}
+					return true
+				})
+				if special && f.val {
+					return
+				}
+			}
+			k++
+			n++
+			env, reached := p.envWalk(fd.Body.List, ienv{}, nd)
+			c.check(reached && env.isBottom(), fmt.Sprintf("zeroconv:%s#%d", name, k), r, "unreachable for a zero coefficient, whatever its exponent",
+				fmt.Sprintf("%s: `%s` can be reached with a zero coefficient (a zero with a non-zero exponent, e.g. 0E+25, is a legal encoding): zero must convert to (0, true)", name, p.exprStr(r.Results[0])+", false"), "C10", "C19")
+		})
+		p.ivZeroCoef = false
+	}
+	if n < 6 {
+		c.undecided("zeroconv.count", nil, fmt.Sprintf("only %d saturating exits found", n), "C10")
 	}
 }
